@@ -176,8 +176,9 @@ Expect(b) ==
             [] df = 19 -> hd @@ [af |-> Field(b, 5, 3)]
             [] df = 20 -> hd @@ Surv(b) @@ [ac |-> AC13(Field(b, 19, 13))] @@ MBFields(b, 32)
             [] df = 21 -> hd @@ Surv(b) @@ [id |-> Identity(Field(b, 19, 13)), ap |-> Field(b, 88, 24)] @@ MBFields(b, 32)
-            [] OTHER   -> hd @@ [ca |-> Field(b, 5, 3), aa |-> Field(b, 8, 24), tc |-> Field(b, 32, 5),
-                                 dhi |-> Field(b, 37, 20), dlo |-> Field(b, 57, 31), pi |-> Field(b, 88, 24)]
+            \* DF24-31 as the library views them; the 51 data bits are opaque (not an interpreted payload, so
+            \* no property constrains them - the library exposes them in host byte order)
+            [] OTHER   -> hd @@ [ca |-> Field(b, 5, 3), aa |-> Field(b, 8, 24), tc |-> Field(b, 32, 5), pi |-> Field(b, 88, 24)]
 
 Loose(b) ==
   IF ~Accepts(b) THEN << >>
